@@ -628,3 +628,1051 @@ theorem retry_publish {chk : Nat → Nat → Bool} {s s' : State} (hI : Inv chk 
 
 end SC
 end Woodpile.Abt
+
+/-! ## Track abt2: statement-strength additions (claim audit gaps 7, 10, 18) -/
+
+namespace Woodpile.Abt.SC
+
+/-- `retry_publish` plus: the sequence number the failed iteration was based on is not older
+than the snapshot's start, so the newer one (`sq + 1 ..= mem seq`) was published after the
+snapshot began; a retry does not move `start`. -/
+theorem retry_publish_during {chk : Nat → Nat → Bool} {s s' : State} (hI : Inv chk s) (t ts : Nat)
+    (hpc : (s.thr t).pc = .sSeq2) (hs : step chk s (.run t ts) = some s') (hretry : (s'.thr t).pc = .sV) :
+    s.start t ≤ (s.thr t).sq ∧ (s.thr t).sq < s.mem .seq ∧ s.start t + 1 < s.hist.length ∧
+    (s'.thr t).sq = s.mem .seq ∧ s'.start t = s.start t := by
+  have hrd := hI.reader t
+  have hlen := hI.len
+  obtain ⟨h1, _, h3⟩ := retry_publish hI t ts hpc hs hretry
+  simp only [RInv, hpc] at hrd
+  refine ⟨hrd.1, h1, by omega, h3, ?_⟩
+  simp only [step] at hs
+  generalize hth : s.thr t = th at hpc hs
+  obtain ⟨pc, ub, uv, sq, bits, base⟩ := th
+  simp at hpc; subst hpc
+  simp only [Local.next] at hs
+  simp at hs; subst hs; rfl
+
+end Woodpile.Abt.SC
+
+/-! ### Completed calls: the generic bookkeeping layer (gap 7) -/
+namespace Woodpile.Abt
+
+/-- One step of a thread's program: the local state after consuming the result of its next access. -/
+inductive Local.Succ (chk : Nat → Nat → Bool) (th : Local) : Local → Prop
+  | load (l : Loc) (o : Ord) (val : Nat) : th.next = .load l o → Local.Succ chk th (th.feedLoad chk val)
+  | lock (r : LockRes) : th.next = .lock ∨ th.next = .tryLock → Local.Succ chk th (th.feedLock r)
+  | unit : (∀ l o, th.next ≠ .load l o) → th.next ≠ .lock → th.next ≠ .tryLock → th.next ≠ .none →
+      Local.Succ chk th th.feedUnit
+
+/-- The (non-terminal) program counters each operation's program visits. -/
+def OpPc : Op → Pc → Bool
+  | .snapshot, pc => pc.inSnap
+  | .update _ _, pc =>
+    match pc with
+    | .uLock | .uClear | .uUnlock | .aSeq | .aV | .aB | .aStB | .aStV | .aStSeq | .aUnlock _ | .aUnlockPanic => true
+    | _ => false
+  | .tryUpdate _ _, pc =>
+    match pc with
+    | .tTry | .tClear | .tUnlock | .aSeq | .aV | .aB | .aStB | .aStV | .aStSeq | .aUnlock _ | .aUnlockPanic => true
+    | _ => false
+
+/-- The locals hold the call's arguments; the panic path is entered only with an invalid pair. -/
+def ArgsOK (chk : Nat → Nat → Bool) : Op → Local → Prop
+  | .snapshot, _ => True
+  | .update b v, th => th.ub = b ∧ th.uv = v ∧ (th.pc = .aUnlockPanic → chk b v = false)
+  | .tryUpdate b v, th => th.ub = b ∧ th.uv = v ∧ (th.pc = .aUnlockPanic → chk b v = false)
+
+/-- How an operation can end. -/
+def EndOK (chk : Nat → Nat → Bool) (op : Op) (th th' : Local) : Prop :=
+  match op with
+  | .snapshot => th'.pc = .retSnap ∨ th'.pc = .sPanic
+  | .update b v => (∃ r, th'.pc = .retBool r ∧ th.pc = .aUnlock r) ∨ (th'.pc = .aPanic ∧ chk b v = false)
+  | .tryUpdate b v => (th'.pc = .retBool true ∧ th.pc = .aUnlock true) ∨ th'.pc = .retBool false ∨
+      (th'.pc = .aPanic ∧ chk b v = false)
+
+theorem succ_op {chk : Nat → Nat → Bool} {op : Op} {th th' : Local} (hpc : OpPc op th.pc = true)
+    (ha : ArgsOK chk op th) (h : Local.Succ chk th th') :
+    (OpPc op th'.pc = true ∧ ArgsOK chk op th') ∨ (th'.pc.terminal = true ∧ EndOK chk op th th') := by
+  obtain ⟨pc, ub, uv, sq, bits, base⟩ := th
+  cases op with
+  | snapshot =>
+    cases pc <;> simp [OpPc, Pc.inSnap] at hpc <;>
+    ( cases h with
+      | load l o val hn =>
+        simp only [Local.feedLoad]
+        (repeat' split) <;> simp [OpPc, Pc.inSnap, ArgsOK, EndOK, Pc.terminal]
+      | lock r hn => simp [Local.next] at hn
+      | unit h1 h2 h3 h4 => simp [Local.next] at h1 )
+  | update b v =>
+    simp only [ArgsOK] at ha
+    obtain ⟨ha1, ha2, ha3⟩ := ha
+    subst ha1 ha2
+    cases pc <;> simp [OpPc] at hpc <;>
+    ( cases h with
+      | load l o val hn =>
+        first
+        | (simp [Local.next] at hn; done)
+        | (simp only [Local.feedLoad]
+           (repeat' split) <;> simp_all [OpPc, ArgsOK, EndOK, Pc.terminal])
+      | lock r hn =>
+        first
+        | (simp [Local.next] at hn; done)
+        | (cases r <;> simp_all [Local.feedLock, OpPc, ArgsOK, EndOK, Pc.terminal])
+      | unit h1 h2 h3 h4 =>
+        first
+        | (simp [Local.next] at h1; done)
+        | (simp [Local.next] at h2; done)
+        | (simp [Local.next] at h3; done)
+        | (simp_all [Local.feedUnit, OpPc, ArgsOK, EndOK, Pc.terminal]) )
+  | tryUpdate b v =>
+    simp only [ArgsOK] at ha
+    obtain ⟨ha1, ha2, ha3⟩ := ha
+    subst ha1 ha2
+    cases pc <;> simp [OpPc] at hpc <;>
+    ( cases h with
+      | load l o val hn =>
+        first
+        | (simp [Local.next] at hn; done)
+        | (simp only [Local.feedLoad]
+           (repeat' split) <;> simp_all [OpPc, ArgsOK, EndOK, Pc.terminal])
+      | lock r hn =>
+        first
+        | (simp [Local.next] at hn; done)
+        | (cases r <;> simp_all [Local.feedLock, OpPc, ArgsOK, EndOK, Pc.terminal])
+      | unit h1 h2 h3 h4 =>
+        first
+        | (simp [Local.next] at h1; done)
+        | (simp [Local.next] at h2; done)
+        | (simp [Local.next] at h3; done)
+        | (simp_all [Local.feedUnit, OpPc, ArgsOK, EndOK, Pc.terminal]) )
+
+
+
+/-- What a writer knows once `advance_once` has decided, in terms of the history and the
+thread's own view of `sequence` (`vseq`): an accepted call's pair is published at an index its
+view covers; an ignored call has seen a published pair with a newer base time. -/
+def UInv (hist : List (Nat × Nat)) (vseq : Nat) (th : Local) : Prop :=
+  match th.pc with
+  | .aUnlock true | .retBool true => ∃ j, j ≤ vseq ∧ hist[j]? = some (th.ub, th.uv)
+  | .aUnlock false => ∃ j p, j ≤ vseq ∧ hist[j]? = some p ∧ th.ub < p.1
+  | _ => True
+
+theorem getElem?_append_some {α : Type} {l : List α} {k : Nat} {p : α} (y : List α) (hk : l[k]? = some p) :
+    (l ++ y)[k]? = some p := by
+  have : k < l.length := (List.getElem?_eq_some_iff.mp hk).1
+  rw [List.getElem?_append_left this]; exact hk
+
+theorem UInv_mono {hist y : List (Nat × Nat)} {vseq vseq' : Nat} {th : Local} (hv : vseq ≤ vseq')
+    (h : UInv hist vseq th) : UInv (hist ++ y) vseq' th := by
+  unfold UInv at *
+  split at h
+  · obtain ⟨j, h1, h2⟩ := h; exact ⟨j, by omega, getElem?_append_some _ h2⟩
+  · obtain ⟨j, h1, h2⟩ := h; exact ⟨j, by omega, getElem?_append_some _ h2⟩
+  · obtain ⟨j, p, h1, h2, h3⟩ := h; exact ⟨j, p, by omega, getElem?_append_some _ h2, h3⟩
+  · trivial
+
+namespace Mach
+
+/-- The facts about a machine the call bookkeeping rests on (`ok` = its inductive invariant;
+`G` = "every thread's view of `sequence` is the global one", true on SC only). -/
+structure Laws (M : Mach) (chk : Nat → Nat → Bool) (ok : M.σ → Prop) (G : Prop) : Prop where
+  ok_step : ∀ {s s' : M.σ} {l : Label}, ok s → M.step s l = some s' → ok s'
+  others : ∀ {s s' : M.σ} {l : Label}, ok s → M.step s l = some s' → ∀ t', t' ≠ actor l →
+    M.loc s' t' = M.loc s t' ∧ M.startOf s' t' = M.startOf s t'
+  vmono : ∀ {s s' : M.σ} {l : Label}, ok s → M.step s l = some s' → ∀ t', M.vseq s t' ≤ M.vseq s' t'
+  hist_ext : ∀ {s s' : M.σ} {l : Label}, ok s → M.step s l = some s' → ∃ y, M.hist s' = M.hist s ++ y
+  sync : ∀ {s s' : M.σ} {t u : Nat}, ok s → M.step s (.sync t u) = some s' →
+    M.loc s' t = M.loc s t ∧ M.startOf s' t = M.startOf s t ∧ M.vseq s u ≤ M.vseq s' t
+  start : ∀ {s s' : M.σ} {t : Nat} {op : Op}, ok s → M.step s (.start t op) = some s' →
+    M.loc s' t = (M.loc s t).start op ∧ M.startOf s' t = M.vseq s t ∧ M.vseq s' t = M.vseq s t ∧
+    (M.loc s t).pc.terminal = true
+  run : ∀ {s s' : M.σ} {t ts : Nat}, ok s → M.step s (.run t ts) = some s' →
+    Local.Succ chk (M.loc s t) (M.loc s' t) ∧ M.startOf s' t = M.startOf s t
+  snapRet : ∀ {s : M.σ} {t : Nat}, ok s → (M.loc s t).pc = .retSnap →
+    ∃ k, M.startOf s t ≤ k ∧ k ≤ M.vseq s t ∧ (M.hist s)[k]? = some ((M.loc s t).base, (M.loc s t).bits)
+  noPanic : ∀ {s : M.σ} {t : Nat}, ok s → (M.loc s t).pc ≠ .sPanic
+  uinv : ∀ {s : M.σ} {t : Nat}, ok s → UInv (M.hist s) (M.vseq s t) (M.loc s t)
+  sorted : ∀ {s : M.σ}, ok s → (M.hist s).Pairwise (fun a b => a.1 ≤ b.1)
+  global : G → ∀ (s : M.σ) (t u : Nat), M.vseq s t = M.vseq s u
+
+/-- What is known about a completed call, in terms of the (append-only) history:
+* `snapshot` returned a pair published with a sequence number between the caller's view of
+  `sequence` at the start and at the return of the call (and never panics);
+* `update(b, v)` that returned: some pair with base time ≥ `b` is published at an index its view
+  at return covers - its own pair if it was accepted, a strictly newer one if it was ignored;
+* `try_update(b, v)` that returned `true`: its own pair is published at such an index;
+* a call that panicked was given an invalid pair. -/
+def RecOK (chk : Nat → Nat → Bool) (hist : List (Nat × Nat)) (R : CallRec) : Prop :=
+  R.vStart ≤ R.vRet ∧ R.tStart < R.tRet ∧
+  match R.op, R.res with
+  | .snapshot, .snap b v => ∃ k, R.vStart ≤ k ∧ k ≤ R.vRet ∧ hist[k]? = some (b, v)
+  | .snapshot, _ => False
+  | .update b v, .bool r => ∃ j p, j ≤ R.vRet ∧ hist[j]? = some p ∧ (if r then p = (b, v) else b < p.1)
+  | .update _ _, .snap _ _ => False
+  | .update b v, .panic => chk b v = false
+  | .tryUpdate b v, .bool true => ∃ j, j ≤ R.vRet ∧ hist[j]? = some (b, v)
+  | .tryUpdate _ _, .bool false => True
+  | .tryUpdate _ _, .snap _ _ => False
+  | .tryUpdate b v, .panic => chk b v = false
+
+theorem RecOK_ext {chk : Nat → Nat → Bool} {hist : List (Nat × Nat)} {R : CallRec} (y : List (Nat × Nat))
+    (h : RecOK chk hist R) : RecOK chk (hist ++ y) R := by
+  obtain ⟨h1, h2, h3⟩ := h
+  refine ⟨h1, h2, ?_⟩
+  split at h3
+  · obtain ⟨k, a, b, c⟩ := h3; exact ⟨k, a, b, getElem?_append_some _ c⟩
+  · exact h3
+  · obtain ⟨j, p, a, b, c⟩ := h3; exact ⟨j, p, a, getElem?_append_some _ b, c⟩
+  · exact h3
+  · exact h3
+  · obtain ⟨j, a, b⟩ := h3; exact ⟨j, a, getElem?_append_some _ b⟩
+  · exact h3
+  · exact h3
+  · exact h3
+
+/-- Per thread: no call in progress iff the pc is terminal; a call in progress is inside its
+own program with its own arguments, started before now, and every call that completed before
+it started (on the same thread; on SC: on any thread) is covered by its recorded start view.
+(`th`, `st`, `vs`: the thread's program state, recorded start view and current view.) -/
+def CurOK (chk : Nat → Nat → Bool) (G : Prop) (th : Local) (st vs clock : Nat) (done : List CallRec) (t : Nat) :
+    Option (Op × Nat) → Prop
+  | none => th.pc.terminal = true
+  | some (op, t0) =>
+    OpPc op th.pc = true ∧ ArgsOK chk op th ∧ t0 < clock ∧ st ≤ vs ∧
+    ∀ R ∈ done, (R.tid = t ∨ G) → R.tRet < t0 → R.vRet ≤ st
+
+structure GInv (M : Mach) (chk : Nat → Nat → Bool) (ok : M.σ → Prop) (G : Prop) (g : M.GState) : Prop where
+  ok : ok g.s
+  recs : ∀ R ∈ g.done, RecOK chk (M.hist g.s) R ∧ R.tRet < g.clock ∧ ∀ t, (R.tid = t ∨ G) → R.vRet ≤ M.vseq g.s t
+  cur : ∀ t, CurOK chk G (M.loc g.s t) (M.startOf g.s t) (M.vseq g.s t) g.clock g.done t (g.cur t)
+  pairs : ∀ R1 ∈ g.done, ∀ R2 ∈ g.done, (R1.tid = R2.tid ∨ G) → R1.tRet < R2.tStart → R1.vRet ≤ R2.vStart
+
+theorem CurOK_mono {chk : Nat → Nat → Bool} {G : Prop} {th : Local} {st vs vs' clock clock' : Nat}
+    {done : List CallRec} {t : Nat} {c : Option (Op × Nat)} (hv : vs ≤ vs') (hc : clock ≤ clock')
+    (h : CurOK chk G th st vs clock done t c) : CurOK chk G th st vs' clock' done t c := by
+  cases c with
+  | none => exact h
+  | some x =>
+    obtain ⟨op, t0⟩ := x
+    obtain ⟨a, b, c, d, e⟩ := h
+    exact ⟨a, b, by omega, by omega, e⟩
+
+theorem CurOK_cons {chk : Nat → Nat → Bool} {G : Prop} {th : Local} {st vs clock : Nat}
+    {done : List CallRec} {t : Nat} {c : Option (Op × Nat)} (R : CallRec) (hR : clock ≤ R.tRet + 1)
+    (h : CurOK chk G th st vs clock done t c) : CurOK chk G th st vs clock (R :: done) t c := by
+  cases c with
+  | none => exact h
+  | some x =>
+    obtain ⟨op, t0⟩ := x
+    obtain ⟨a, b, c, d, e⟩ := h
+    refine ⟨a, b, c, d, ?_⟩
+    intro R' hR' h1 h2
+    rcases List.mem_cons.mp hR' with rfl | hm
+    · omega
+    · exact e R' hm h1 h2
+
+theorem terminal_not_op {op : Op} {pc : Pc} (h : OpPc op pc = true) : pc.terminal = false := by
+  cases op <;> cases pc <;> simp [OpPc, Pc.inSnap, Pc.terminal] at h ⊢
+
+theorem succ_not_terminal {chk : Nat → Nat → Bool} {th th' : Local} (h : Local.Succ chk th th') :
+    th.pc.terminal = false := by
+  obtain ⟨pc, ub, uv, sq, bits, base⟩ := th
+  cases h with
+  | load l o val hn => cases pc <;> simp [Local.next] at hn <;> rfl
+  | lock r hn => cases pc <;> simp [Local.next] at hn <;> rfl
+  | unit h1 h2 h3 h4 => cases pc <;> simp [Local.next] at h4 <;> rfl
+
+theorem start_op (chk : Nat → Nat → Bool) (th : Local) (op : Op) :
+    OpPc op (th.start op).pc = true ∧ ArgsOK chk op (th.start op) := by
+  cases op <;> simp [Local.start, OpPc, ArgsOK, Pc.inSnap]
+
+
+theorem result_none {th : Local} (h : th.pc.terminal = false) : th.result = none := by
+  obtain ⟨pc, ub, uv, sq, bits, base⟩ := th
+  cases pc <;> simp [Pc.terminal] at h <;> rfl
+
+theorem ginv_step {M : Mach} {chk : Nat → Nat → Bool} {ok : M.σ → Prop} {G : Prop} (L : Laws M chk ok G)
+    {g : M.GState} {l : Label} {s' : M.σ} (hI : GInv M chk ok G g) (hs : M.step g.s l = some s') :
+    GInv M chk ok G (M.gnext g l s') := by
+  have hok' := L.ok_step hI.ok hs
+  obtain ⟨y, hy⟩ := L.hist_ext hI.ok hs
+  have hvm := L.vmono hI.ok hs
+  have hoth := L.others hI.ok hs
+  have hrec : ∀ R ∈ g.done, RecOK chk (M.hist s') R ∧ R.tRet < g.clock + 1 ∧
+      ∀ t, (R.tid = t ∨ G) → R.vRet ≤ M.vseq s' t := by
+    intro R hR
+    obtain ⟨a, b, c⟩ := hI.recs R hR
+    exact ⟨by rw [hy]; exact RecOK_ext y a, by omega, fun t ht => Nat.le_trans (c t ht) (hvm t)⟩
+  have hkeep : ∀ t', M.loc s' t' = M.loc g.s t' → M.startOf s' t' = M.startOf g.s t' →
+      CurOK chk G (M.loc s' t') (M.startOf s' t') (M.vseq s' t') (g.clock + 1) g.done t' (g.cur t') := by
+    intro t' h1 h2
+    rw [h1, h2]
+    exact CurOK_mono (hvm t') (by omega) (hI.cur t')
+  cases l with
+  | sync t u =>
+    obtain ⟨s1, s2, _⟩ := L.sync hI.ok hs
+    refine ⟨hok', hrec, ?_, hI.pairs⟩
+    intro t'
+    by_cases ht : t' = t
+    · subst ht; exact hkeep t' s1 s2
+    · exact hkeep t' (hoth t' ht).1 (hoth t' ht).2
+  | start t op =>
+    obtain ⟨s1, s2, s3, _⟩ := L.start hI.ok hs
+    refine ⟨hok', hrec, ?_, hI.pairs⟩
+    intro t'
+    simp only [gnext]
+    by_cases ht : t' = t
+    · subst ht
+      simp only [upd_same]
+      refine ⟨by rw [s1]; exact (start_op chk _ op).1, by rw [s1]; exact (start_op chk _ op).2, by omega,
+        by omega, ?_⟩
+      intro R hR h1 _
+      rw [s2]; exact (hI.recs R hR).2.2 t' h1
+    · rw [upd_ne _ _ _ ht]; exact hkeep t' (hoth t' ht).1 (hoth t' ht).2
+  | run t ts =>
+    obtain ⟨hsucc, hst⟩ := L.run hI.ok hs
+    have hct := hI.cur t
+    have hnt := succ_not_terminal hsucc
+    cases hc : g.cur t with
+    | none => rw [hc] at hct; simp only [CurOK] at hct; rw [hnt] at hct; cases hct
+    | some x =>
+      obtain ⟨op, t0⟩ := x
+      rw [hc] at hct
+      obtain ⟨c1, c2, c3, c4, c5⟩ := hct
+      rcases succ_op c1 c2 hsucc with ⟨d1, d2⟩ | ⟨d1, d2⟩
+      · -- still inside the operation
+        have hres : (M.loc s' t).result = none := result_none (terminal_not_op d1)
+        have hg : M.gnext g (.run t ts) s' = { s := s', clock := g.clock + 1, cur := g.cur, done := g.done } := by
+          simp only [gnext, hc, hres]
+        rw [hg]
+        refine ⟨hok', hrec, ?_, hI.pairs⟩
+        intro t'
+        by_cases ht : t' = t
+        · subst ht
+          show CurOK chk G (M.loc s' t') (M.startOf s' t') (M.vseq s' t') (g.clock + 1) g.done t' (g.cur t')
+          rw [hc, hst]
+          exact ⟨d1, d2, by omega, Nat.le_trans c4 (hvm t'), c5⟩
+        · exact hkeep t' (hoth t' ht).1 (hoth t' ht).2
+      · -- the operation completes with this step
+        have finish : ∀ r, (M.loc s' t).result = some r →
+            RecOK chk (M.hist s') (⟨t, op, M.startOf s' t, M.vseq s' t, t0, g.clock, r⟩ : CallRec) →
+            GInv M chk ok G (M.gnext g (.run t ts) s') := by
+          intro r hres hR
+          have hg : M.gnext g (.run t ts) s' = (⟨s', g.clock + 1, upd g.cur t none,
+              (⟨t, op, M.startOf s' t, M.vseq s' t, t0, g.clock, r⟩ : CallRec) :: g.done⟩ : M.GState) := by
+            simp only [gnext, hc, hres]
+          rw [hg]
+          refine ⟨hok', ?_, ?_, ?_⟩
+          · intro R hRm
+            rcases List.mem_cons.mp hRm with rfl | hm
+            · refine ⟨hR, by show g.clock < g.clock + 1; omega, ?_⟩
+              intro t' ht'
+              rcases ht' with h | h
+              · have h : t = t' := h
+                subst h; exact Nat.le_refl _
+              · show M.vseq s' t ≤ M.vseq s' t'
+                rw [L.global h s' t t']; exact Nat.le_refl _
+            · exact hrec R hm
+          · intro t'
+            by_cases ht : t' = t
+            · subst ht
+              show CurOK chk G _ _ _ _ _ t' (upd g.cur t' none t')
+              rw [upd_same]; exact d1
+            · show CurOK chk G _ _ _ _ _ t' (upd g.cur t none t')
+              rw [upd_ne _ _ _ ht]
+              exact CurOK_cons _ (Nat.le_refl (g.clock + 1)) (hkeep t' (hoth t' ht).1 (hoth t' ht).2)
+          · intro R1 h1 R2 h2 hsame hlt
+            rcases List.mem_cons.mp h1 with rfl | m1 <;> rcases List.mem_cons.mp h2 with rfl | m2
+            · have : g.clock < t0 := hlt
+              omega
+            · have : g.clock < R2.tStart := hlt
+              have a := (hI.recs R2 m2).1.2.1
+              have b := (hI.recs R2 m2).2.1
+              omega
+            · show R1.vRet ≤ M.startOf s' t
+              rw [hst]
+              exact c5 R1 m1 hsame hlt
+            · exact hI.pairs R1 m1 R2 m2 hsame hlt
+        have hvv : M.startOf s' t ≤ M.vseq s' t := by rw [hst]; exact Nat.le_trans c4 (hvm t)
+        have hU := L.uinv (t := t) hI.ok
+        cases op with
+        | snapshot =>
+          rcases d2 with hp | hp
+          · obtain ⟨k, k1, k2, k3⟩ := L.snapRet hok' hp
+            exact finish (.snap (M.loc s' t).base (M.loc s' t).bits) (by simp [Local.result, hp])
+              ⟨hvv, c3, k, k1, k2, k3⟩
+          · exact absurd hp (L.noPanic hok')
+        | update b v =>
+          simp only [ArgsOK] at c2
+          obtain ⟨a1, a2, _⟩ := c2
+          rcases d2 with ⟨r, hp, hq⟩ | ⟨hp, hchk⟩
+          · refine finish (.bool r) (by simp [Local.result, hp]) ⟨hvv, c3, ?_⟩
+            simp only [UInv, hq] at hU
+            cases r with
+            | true =>
+              obtain ⟨j, j1, j2⟩ := hU
+              exact ⟨j, (b, v), Nat.le_trans j1 (hvm t), by rw [hy, ← a1, ← a2]; exact getElem?_append_some _ j2,
+                by simp⟩
+            | false =>
+              obtain ⟨j, p, j1, j2, j3⟩ := hU
+              exact ⟨j, p, Nat.le_trans j1 (hvm t), by rw [hy]; exact getElem?_append_some _ j2,
+                by simp; omega⟩
+          · exact finish .panic (by simp [Local.result, hp]) ⟨hvv, c3, hchk⟩
+        | tryUpdate b v =>
+          simp only [ArgsOK] at c2
+          obtain ⟨a1, a2, _⟩ := c2
+          rcases d2 with ⟨hp, hq⟩ | hp | ⟨hp, hchk⟩
+          · refine finish (.bool true) (by simp [Local.result, hp]) ⟨hvv, c3, ?_⟩
+            simp only [UInv, hq] at hU
+            obtain ⟨j, j1, j2⟩ := hU
+            exact ⟨j, Nat.le_trans j1 (hvm t), by rw [hy, ← a1, ← a2]; exact getElem?_append_some _ j2⟩
+          · exact finish (.bool false) (by simp [Local.result, hp]) ⟨hvv, c3, trivial⟩
+          · exact finish .panic (by simp [Local.result, hp]) ⟨hvv, c3, hchk⟩
+
+
+theorem ginv_init {M : Mach} {chk : Nat → Nat → Bool} {ok : M.σ → Prop} {G : Prop} {s0 : M.σ} (h0 : ok s0)
+    (hidle : ∀ t, (M.loc s0 t).pc.terminal = true) : GInv M chk ok G (M.ginit s0) :=
+  { ok := h0
+    recs := by intro R hR; simp [ginit] at hR
+    cur := by intro t; exact hidle t
+    pairs := by intro R hR; simp [ginit] at hR }
+
+theorem ginv_run {M : Mach} {chk : Nat → Nat → Bool} {ok : M.σ → Prop} {G : Prop} (L : Laws M chk ok G)
+    (ls : List Label) : ∀ (g g' : M.GState), GInv M chk ok G g → M.grun g ls = some g' → GInv M chk ok G g' := by
+  induction ls with
+  | nil => intro g g' hI h; simp [grun] at h; subst h; exact hI
+  | cons l ls ih =>
+    intro g g' hI h
+    simp only [grun, gstep] at h
+    cases hst : M.step g.s l with
+    | none => simp [hst] at h
+    | some s1 => simp only [hst] at h; exact ih _ g' (ginv_step L hI hst) h
+
+@[simp] theorem gnext_s (M : Mach) (g : M.GState) (l : Label) (s1 : M.σ) : (M.gnext g l s1).s = s1 := by
+  cases l <;> simp only [gnext]
+  split <;> rfl
+
+/-- Erasing the bookkeeping gives a run of the machine itself ... -/
+theorem grun_erase (M : Mach) (ls : List Label) : ∀ (g g' : M.GState), M.grun g ls = some g' →
+    M.run g.s ls = some g'.s := by
+  induction ls with
+  | nil => intro g g' h; simp [grun] at h; subst h; rfl
+  | cons l ls ih =>
+    intro g g' h
+    simp only [grun, gstep] at h
+    simp only [run]
+    cases hst : M.step g.s l with
+    | none => simp [hst] at h
+    | some s1 =>
+      simp only [hst] at h
+      have := ih _ g' h
+      rw [gnext_s] at this
+      exact this
+
+/-- ... and every run of the machine carries bookkeeping: the ghost layer restricts nothing. -/
+theorem grun_lift (M : Mach) (ls : List Label) : ∀ (g : M.GState) (s' : M.σ), M.run g.s ls = some s' →
+    ∃ g', M.grun g ls = some g' ∧ g'.s = s' := by
+  induction ls with
+  | nil => intro g s' h; simp [run] at h; exact ⟨g, rfl, h⟩
+  | cons l ls ih =>
+    intro g s' h
+    simp only [run] at h
+    cases hst : M.step g.s l with
+    | none => simp [hst] at h
+    | some s1 =>
+      simp only [hst] at h
+      have hs1 : (M.gnext g l s1).s = s1 := gnext_s M g l s1
+      obtain ⟨g', h1, h2⟩ := ih (M.gnext g l s1) s' (by rw [hs1]; exact h)
+      exact ⟨g', by simp only [grun, gstep, hst]; exact h1, h2⟩
+
+/-- End to end: a completed `update(b, v)` (it returned, i.e. did not panic on an invalid pair), or
+a `try_update(b, v)` that returned `true`, whose return the start of a `snapshot` call has seen
+(`U.vRet ≤ S.vStart`: the snapshot's caller's view of `sequence` at its start includes the
+updater's view at its return) is reflected by the snapshot: it returns a base time ≥ `b`. -/
+theorem update_then_snapshot {M : Mach} {chk : Nat → Nat → Bool} {ok : M.σ → Prop} {G : Prop} (L : Laws M chk ok G)
+    {g : M.GState} (hI : GInv M chk ok G g) (U S : CallRec) (hU : U ∈ g.done) (hS : S ∈ g.done) (b v sb sv : Nat)
+    (hUop : (U.op = .update b v ∧ ∃ r, U.res = .bool r) ∨ (U.op = .tryUpdate b v ∧ U.res = .bool true))
+    (hSop : S.op = .snapshot) (hSres : S.res = .snap sb sv) (hb : U.vRet ≤ S.vStart) : b ≤ sb := by
+  obtain ⟨_, _, hs⟩ := (hI.recs S hS).1
+  simp only [hSop, hSres] at hs
+  obtain ⟨k, k1, _, k3⟩ := hs
+  obtain ⟨_, _, hu⟩ := (hI.recs U hU).1
+  have key : ∃ j p, j ≤ U.vRet ∧ (M.hist g.s)[j]? = some p ∧ b ≤ p.1 := by
+    rcases hUop with ⟨h1, r, h2⟩ | ⟨h1, h2⟩
+    · simp only [h1, h2] at hu
+      obtain ⟨j, p, j1, j2, j3⟩ := hu
+      refine ⟨j, p, j1, j2, ?_⟩
+      cases r <;> simp at j3
+      · omega
+      · rw [j3]; exact Nat.le_refl _
+    · simp only [h1, h2] at hu
+      obtain ⟨j, j1, j2⟩ := hu
+      exact ⟨j, (b, v), j1, j2, Nat.le_refl _⟩
+  obtain ⟨j, p, j1, j2, j3⟩ := key
+  have := sorted_get (L.sorted hI.ok) j2 k3 (by omega)
+  exact Nat.le_trans j3 this
+
+end Mach
+end Woodpile.Abt
+
+/-! ### The SC machine satisfies the bookkeeping laws -/
+namespace Woodpile.Abt.SC
+
+theorem run_append (chk : Nat → Nat → Bool) (l1 l2 : List Label) : ∀ (s : State),
+    run chk s (l1 ++ l2) = (match run chk s l1 with | some s1 => run chk s1 l2 | none => none) := by
+  induction l1 with
+  | nil => intro s; simp [run]
+  | cons l ls ih =>
+    intro s
+    simp only [List.cons_append, run]
+    cases step chk s l with
+    | none => rfl
+    | some s1 => exact ih s1
+
+theorem reachable_run {chk : Nat → Nat → Bool} {v0 : Nat} {s s' : State} (h : Reachable chk v0 s)
+    (ls : List Label) (hr : run chk s ls = some s') : Reachable chk v0 s' := by
+  obtain ⟨l0, h0⟩ := h
+  exact ⟨l0 ++ ls, by rw [run_append, h0]; exact hr⟩
+
+/-- Everything a step leaves alone or only grows (SC machine). -/
+structure FrameSpec (chk : Nat → Nat → Bool) (s s' : State) (l : Label) : Prop where
+  others : ∀ t', t' ≠ actor l → s'.thr t' = s.thr t' ∧ s'.start t' = s.start t'
+  seqmono : s.mem .seq ≤ s'.mem .seq
+  sync : ∀ t u, l = .sync t u → s' = s
+  start : ∀ t op, l = .start t op → s'.thr t = (s.thr t).start op ∧ s'.start t = s.mem .seq ∧ s'.mem = s.mem ∧
+      (s.thr t).pc.terminal = true
+  run : ∀ t ts, l = .run t ts → Local.Succ chk (s.thr t) (s'.thr t) ∧ s'.start t = s.start t
+
+theorem frame_run_aux (chk : Nat → Nat → Bool) (s : State) (t ts : Nat) (th' : Local) (lg' : Nat → List (Nat × Nat))
+    (mem' : Loc → Nat) (held' : Option Nat) (p' : Bool) (hist' : List (Nat × Nat))
+    (hm : s.mem .seq ≤ mem' .seq) (hsucc : Local.Succ chk (s.thr t) th') :
+    FrameSpec chk s { s with thr := upd s.thr t th', log := lg', mem := mem', held := held', poisoned := p',
+                             hist := hist' } (.run t ts) := by
+  refine ⟨?_, hm, (by intro _ _ h; cases h), (by intro _ _ h; cases h), ?_⟩
+  · intro t' ht; simp only [actor] at ht; simp [upd_ne _ _ _ ht]
+  · intro t2 ts2 h; cases h
+    simp only [upd_same]; exact ⟨hsucc, trivial⟩
+
+theorem next_store_seq {th : Local} {o : Ord} {val : Nat} (h : th.next = .store .seq o val) :
+    th.pc = .aStSeq ∧ val = th.sq + 1 := by
+  obtain ⟨pc, ub, uv, sq, bits, base⟩ := th
+  cases pc <;> simp [Local.next] at h
+  exact ⟨rfl, h.2.symm⟩
+
+theorem step_frame {chk : Nat → Nat → Bool} {s s' : State} (hI : Inv chk s) (l : Label) (h : step chk s l = some s') :
+    FrameSpec chk s s' l := by
+  cases l with
+  | sync t u =>
+    simp [step] at h; subst h
+    exact ⟨fun _ _ => ⟨rfl, rfl⟩, Nat.le_refl _, fun _ _ _ => rfl, (by intro _ _ h; cases h), (by intro _ _ h; cases h)⟩
+  | start t op =>
+    simp only [step] at h
+    split at h
+    · rename_i hterm
+      simp at h; subst h
+      refine ⟨?_, Nat.le_refl _, (by intro _ _ h; cases h), ?_, (by intro _ _ h; cases h)⟩
+      · intro t' ht; simp only [actor] at ht; simp [upd_ne _ _ _ ht]
+      · intro t2 op2 h; cases h
+        simp [hterm, hI.len]
+    · simp at h
+  | run t ts =>
+    simp only [step] at h
+    cases hnx : (s.thr t).next <;> simp only [hnx] at h
+    case load l o =>
+      simp at h; subst h
+      exact frame_run_aux chk s t ts _ _ _ _ _ _ (Nat.le_refl _) (.load l o _ hnx)
+    case store l o val =>
+      simp at h; subst h
+      refine frame_run_aux chk s t ts _ _ _ _ _ _ ?_ (.unit (by simp [hnx]) (by simp [hnx]) (by simp [hnx]) (by simp [hnx]))
+      by_cases hl : l = .seq
+      · subst hl
+        obtain ⟨hpc, hval⟩ := next_store_seq hnx
+        have hh : s.held = some t := (hI.lock t).1 (by simp [hpc, Pc.inCS])
+        have hw := hI.writer t hh
+        simp only [WInv, hpc] at hw
+        simp [hval, hw.1]
+      · have : Loc.seq ≠ l := fun h => hl h.symm
+        simp [upd_ne _ _ _ this]
+    case lock =>
+      split at h <;> simp at h
+      subst h
+      exact frame_run_aux chk s t ts _ _ _ _ _ _ (Nat.le_refl _) (.lock _ (Or.inl hnx))
+    case tryLock =>
+      split at h <;> simp at h <;> subst h
+      · exact frame_run_aux chk s t ts _ _ _ _ _ _ (Nat.le_refl _) (.lock _ (Or.inr hnx))
+      · exact frame_run_aux chk s t ts _ _ _ _ _ _ (Nat.le_refl _) (.lock _ (Or.inr hnx))
+    case unlock p =>
+      simp at h; subst h
+      exact frame_run_aux chk s t ts _ _ _ _ _ _ (Nat.le_refl _) (.unit (by simp [hnx]) (by simp [hnx]) (by simp [hnx]) (by simp [hnx]))
+    case clearPoison =>
+      simp at h; subst h
+      exact frame_run_aux chk s t ts _ _ _ _ _ _ (Nat.le_refl _) (.unit (by simp [hnx]) (by simp [hnx]) (by simp [hnx]) (by simp [hnx]))
+    case none => simp at h
+
+theorem hist_ext {chk : Nat → Nat → Bool} {s s' : State} {l : Label} (h : step chk s l = some s') :
+    ∃ y, s'.hist = s.hist ++ y := by
+  rcases hist_step chk s s' l h with h | ⟨_, _, _, _, h⟩
+  · exact ⟨[], by simp [h]⟩
+  · exact ⟨_, h⟩
+
+
+
+theorem uinv_step {chk : Nat → Nat → Bool} {s s' : State} (hI : Inv chk s) (l : Label)
+    (hU : ∀ t, UInv s.hist (s.mem .seq) (s.thr t)) (hs : step chk s l = some s') :
+    ∀ t, UInv s'.hist (s'.mem .seq) (s'.thr t) := by
+  have hF := step_frame hI l hs
+  obtain ⟨y, hy⟩ := hist_ext hs
+  have hold : ∀ t', s'.thr t' = s.thr t' → UInv s'.hist (s'.mem .seq) (s'.thr t') := by
+    intro t' h; rw [h, hy]; exact UInv_mono hF.seqmono (hU t')
+  intro t'
+  by_cases ht : t' ≠ actor l
+  · exact hold t' (hF.others t' ht).1
+  have ht : t' = actor l := Decidable.of_not_not ht
+  subst ht
+  cases l with
+  | sync t u => rw [hF.sync t u rfl]; exact hU _
+  | start t op =>
+    simp only [actor]
+    rw [(hF.start t op rfl).1]
+    cases op <;> simp [UInv, Local.start]
+  | run t ts =>
+    simp only [actor]
+    have hUt := hU t
+    have hlk := hI.lock t
+    have hwr := hI.writer t
+    simp only [step] at hs
+    cases hpc : (s.thr t).pc <;> simp only [Local.next, hpc] at hs
+    case idle | retSnap | retBool | sPanic | aPanic => simp at hs
+    case sSeq | sSeq2 | aSeq | sV | aV | sB =>
+      simp at hs; subst hs
+      simp only [upd_same, Local.feedLoad, hpc, UInv]
+      all_goals (repeat' split)
+      all_goals (try trivial)
+      all_goals simp_all
+    case aB =>
+      simp at hs; subst hs
+      have hh : s.held = some t := hlk.1 (by simp [hpc, Pc.inCS])
+      have hw := hwr hh
+      simp only [WInv, hpc] at hw
+      simp only [upd_same, Local.feedLoad, hpc]
+      by_cases h1 : (s.thr t).ub < s.mem (.b (odd (s.thr t).sq))
+      · simp only [h1, if_true, UInv]
+        exact ⟨s.mem .seq, _, Nat.le_refl _, hI.cur, by rw [hw] at h1; exact h1⟩
+      · by_cases h2 : chk (s.thr t).ub (s.thr t).uv = true <;> simp [h1, h2, UInv]
+    case aStB | aStV =>
+      simp at hs; subst hs
+      simp [upd_same, Local.feedUnit, hpc, UInv]
+    case aStSeq =>
+      simp at hs; subst hs
+      have hh : s.held = some t := hlk.1 (by simp [hpc, Pc.inCS])
+      have hw := hwr hh
+      simp only [WInv, hpc] at hw
+      simp only [upd_same, Local.feedUnit, hpc, UInv]
+      refine ⟨s.mem .seq + 1, by rw [hw.1]; exact Nat.le_refl _, ?_⟩
+      rw [← hI.len]; simp
+    case uLock =>
+      split at hs <;> simp at hs
+      subst hs
+      cases s.poisoned <;> simp [upd_same, Local.feedLock, hpc, UInv]
+    case tTry =>
+      split at hs <;> simp at hs <;> subst hs
+      · cases s.poisoned <;> simp [upd_same, Local.feedLock, hpc, UInv]
+      · simp [upd_same, Local.feedLock, hpc, UInv]
+    case uClear | tClear | uUnlock | tUnlock | aUnlockPanic =>
+      simp at hs; subst hs
+      simp [upd_same, Local.feedUnit, hpc, UInv]
+    case aUnlock r =>
+      simp at hs; subst hs
+      simp only [hpc, UInv] at hUt
+      cases r <;> simp only [upd_same, Local.feedUnit, hpc, UInv]
+      exact hUt
+
+/-- The SC invariant extended with the writers' knowledge. -/
+def Ok (chk : Nat → Nat → Bool) (s : State) : Prop :=
+  Inv chk s ∧ ∀ t, UInv s.hist (s.mem .seq) (s.thr t)
+
+theorem ok_init (chk : Nat → Nat → Bool) (v0 : Nat) (h0 : chk 0 v0 = true) : Ok chk (init v0) :=
+  ⟨inv_init chk v0 h0, fun t => by simp [UInv, init]⟩
+
+theorem ok_step {chk : Nat → Nat → Bool} {s s' : State} {l : Label} (h : Ok chk s) (hs : step chk s l = some s') :
+    Ok chk s' :=
+  ⟨inv_step chk s s' l h.1 hs, uinv_step h.1 l h.2 hs⟩
+
+theorem ok_run (chk : Nat → Nat → Bool) (ls : List Label) : ∀ (s s' : State), Ok chk s →
+    run chk s ls = some s' → Ok chk s' := by
+  induction ls with
+  | nil => intro s s' hI h; simp [run] at h; subst h; exact hI
+  | cons l ls ih =>
+    intro s s' hI h
+    simp only [run] at h
+    cases hst : step chk s l with
+    | none => simp [hst] at h
+    | some s1 => simp [hst] at h; exact ih s1 s' (ok_step hI hst) h
+
+theorem ok_reachable {chk : Nat → Nat → Bool} {v0 : Nat} (h0 : chk 0 v0 = true) {s : State}
+    (h : Reachable chk v0 s) : Ok chk s := by
+  obtain ⟨ls, hls⟩ := h
+  exact ok_run chk ls _ _ (ok_init chk v0 h0) hls
+
+theorem laws (chk : Nat → Nat → Bool) : (mach chk).Laws chk (Ok chk) True where
+  ok_step := by
+    intro s s' l h hs
+    exact ok_step (s := s) (s' := s') (l := l) h hs
+  others := by
+    intro s s' l h hs t' ht
+    exact (step_frame (s := s) (s' := s') h.1 l hs).others t' ht
+  vmono := by
+    intro s s' l h hs _
+    exact (step_frame (s := s) (s' := s') h.1 l hs).seqmono
+  hist_ext := by
+    intro s s' l _ hs
+    exact hist_ext (s := s) (s' := s') (l := l) hs
+  sync := by
+    intro s s' t u h hs
+    have : s' = s := (step_frame (s := s) (s' := s') h.1 (.sync t u) hs).sync t u rfl
+    subst this
+    exact ⟨rfl, rfl, Nat.le_refl _⟩
+  start := by
+    intro s s' t op h hs
+    obtain ⟨a, b, c, d⟩ := (step_frame (s := s) (s' := s') h.1 (.start t op) hs).start t op rfl
+    exact ⟨a, b, by show s'.mem .seq = s.mem .seq; rw [c], d⟩
+  run := by
+    intro s s' t ts h hs
+    exact (step_frame (s := s) (s' := s') h.1 (.run t ts) hs).run _ _ rfl
+  snapRet := by
+    intro s t h hpc
+    have hpc : (s.thr t).pc = .retSnap := hpc
+    obtain ⟨_, k, k1, k2, k3⟩ := (h.1.logs t).2.2 hpc
+    exact ⟨k, k1, k2, k3⟩
+  noPanic := by
+    intro s t h hpc
+    have hpc : (s.thr t).pc = .sPanic := hpc
+    have := h.1.reader t
+    simp [RInv, hpc] at this
+  uinv := fun h => h.2 _
+  sorted := fun h => h.1.sorted
+  global := fun _ _ _ _ => rfl
+
+end Woodpile.Abt.SC
+
+namespace Woodpile.Abt.SC
+
+/-- The accept direction: when `advance_once` compares (at `aB`) and the argument's base time is
+not older than the most recently published one, the call is not ignored: it goes on to the
+slot stores if the pair is valid (to the panic path otherwise). -/
+theorem fresh_accepted {chk : Nat → Nat → Bool} {s s' : State} (hI : Inv chk s) (t ts : Nat)
+    (hpc : (s.thr t).pc = .aB)
+    (cur : Nat × Nat) (hcur : s.hist.getLast? = some cur) (hfresh : cur.1 ≤ (s.thr t).ub)
+    (hs : step chk s (.run t ts) = some s') :
+    (s'.thr t).pc = (if chk (s.thr t).ub (s.thr t).uv then .aStB else .aUnlockPanic) ∧
+    s'.mem = s.mem ∧ s'.hist = s.hist := by
+  have hheld : s.held = some t := (hI.lock t).1 (by simp [hpc, Pc.inCS])
+  have hw := hI.writer t hheld
+  simp only [WInv, hpc] at hw
+  have hlast : s.hist.getLast? = s.hist[s.mem .seq]? := by
+    rw [List.getLast?_eq_getElem?, hI.len]; simp
+  rw [hlast, hI.cur] at hcur
+  simp at hcur
+  simp only [step, Local.next, hpc] at hs
+  simp at hs; subst hs
+  have : ¬ (s.thr t).ub < s.mem (.b (odd (s.thr t).sq)) := by rw [hw]; subst hcur; simpa using hfresh
+  by_cases h2 : chk (s.thr t).ub (s.thr t).uv = true <;> simp [Local.feedLoad, hpc, this, h2]
+
+/-- Once accepted (`aStB`), the call's remaining four steps - two slot stores, the sequence
+store, the guard drop - are enabled in every state, and taking them returns `true` with
+exactly the call's pair appended to the history and the lock released. -/
+theorem accepted_completes (chk : Nat → Nat → Bool) (s : State) (t : Nat) (hpc : (s.thr t).pc = .aStB) :
+    ∃ s', run chk s (List.replicate 4 (.run t 0)) = some s' ∧ (s'.thr t).pc = .retBool true ∧
+      s'.hist = s.hist ++ [((s.thr t).ub, (s.thr t).uv)] ∧ s'.held = none := by
+  simp [List.replicate, run, step, Local.next, Local.feedUnit, hpc, upd_same]
+
+
+theorem mach_run (chk : Nat → Nat → Bool) (ls : List Label) : ∀ s : State, (mach chk).run s ls = run chk s ls := by
+  induction ls with
+  | nil => intro s; rfl
+  | cons l ls ih =>
+    intro s
+    simp only [run, Mach.run]
+    cases step chk s l with
+    | none => rfl
+    | some s1 => exact ih s1
+
+/-- The bookkeeping invariant holds in every reachable state of the bookkeeping machine. -/
+theorem ginv_reachable {chk : Nat → Nat → Bool} {v0 : Nat} (h0 : chk 0 v0 = true) {g : (mach chk).GState}
+    (h : GReachable chk v0 g) : (mach chk).GInv chk (Ok chk) True g := by
+  obtain ⟨ls, hls⟩ := h
+  exact Mach.ginv_run (laws chk) ls _ _ (Mach.ginv_init (ok_init chk v0 h0) (fun _ => rfl)) hls
+
+/-- The bookkeeping restricts nothing: the machine states it reaches are exactly the reachable ones. -/
+theorem greachable_iff (chk : Nat → Nat → Bool) (v0 : Nat) (s : State) :
+    Reachable chk v0 s ↔ ∃ g : (mach chk).GState, GReachable chk v0 g ∧ g.s = s := by
+  constructor
+  · rintro ⟨ls, hls⟩
+    obtain ⟨g', h1, h2⟩ := Mach.grun_lift (mach chk) ls ((mach chk).ginit (init v0)) s
+      ((mach_run chk ls (init v0)).trans hls)
+    exact ⟨g', ⟨ls, h1⟩, h2⟩
+  · rintro ⟨g, ⟨ls, hls⟩, rfl⟩
+    have := Mach.grun_erase (mach chk) ls _ g hls
+    exact ⟨ls, (mach_run chk ls (init v0)).symm.trans this⟩
+
+end Woodpile.Abt.SC
+
+/-! ### The programs run alone refine the sequential specification (gap 10) -/
+namespace Woodpile.Abt.SC
+
+/-- The writer mutex is free and not poisoned (so, by `Inv.lock`, no thread is inside
+`advance_once`; readers and threads about to lock may be anywhere). -/
+def Quiescent (s : State) : Prop := s.held = none ∧ s.poisoned = false
+
+/-- The cell's abstract value: the most recently published pair. -/
+def cellOf (s : State) : Option (Nat × Nat) := s.hist.getLast?
+
+theorem cell_mem {chk : Nat → Nat → Bool} {s : State} (hI : Inv chk s) {cur : Nat × Nat}
+    (hcur : cellOf s = some cur) :
+    s.mem (.b (odd (s.mem .seq))) = cur.1 ∧ s.mem (.v (odd (s.mem .seq))) = cur.2 := by
+  have hlast : s.hist.getLast? = s.hist[s.mem .seq]? := by
+    rw [List.getLast?_eq_getElem?, hI.len]; simp
+  unfold cellOf at hcur
+  rw [hlast, hI.cur] at hcur
+  simp at hcur; subst hcur; exact ⟨rfl, rfl⟩
+
+set_option linter.unusedSimpArgs false in
+/-- The programs of `update` and `try_update`, run alone from a quiescent state: what they do
+is `seqUpdate` of the cell's abstract value. -/
+theorem writer_refines {chk : Nat → Nat → Bool} {s : State} (hI : Inv chk s) (hq : Quiescent s) (t : Nat)
+    (hterm : (s.thr t).pc.terminal = true) (cur : Nat × Nat) (hcur : cellOf s = some cur) (b v : Nat)
+    (op : Op) (hop : op = .update b v ∨ op = .tryUpdate b v) :
+    match seqUpdate chk cur b v with
+    | some (cur', r) =>
+      ∃ s', run chk s (.start t op :: List.replicate (if r then 8 else 5) (.run t 0)) = some s' ∧
+        (s'.thr t).pc = .retBool r ∧ Quiescent s' ∧ cellOf s' = some cur' ∧
+        s'.hist = (if r then s.hist ++ [(b, v)] else s.hist)
+    | none =>
+      ∃ s', run chk s (.start t op :: List.replicate 5 (.run t 0)) = some s' ∧
+        (s'.thr t).pc = .aPanic ∧ s'.held = none ∧ s'.poisoned = true ∧ s'.hist = s.hist := by
+  obtain ⟨hb, hv⟩ := cell_mem hI hcur
+  obtain ⟨hq1, hq2⟩ := hq
+  unfold cellOf at *
+  by_cases h1 : b < cur.1
+  · simp only [seqUpdate, h1, if_true]
+    rcases hop with rfl | rfl <;>
+      simp [List.replicate, run, step, hterm, Local.start, Local.next, Local.feedLock, Local.feedLoad,
+        Local.feedUnit, upd_same, hq1, hq2, hb, h1, Quiescent, cellOf, hcur]
+  · by_cases h2 : chk b v = true
+    · simp only [seqUpdate, h1, h2, if_false, Bool.not_true]
+      rcases hop with rfl | rfl <;>
+        simp [List.replicate, run, step, hterm, Local.start, Local.next, Local.feedLock, Local.feedLoad,
+          Local.feedUnit, upd_same, hq1, hq2, hb, h1, h2, Quiescent, cellOf]
+    · simp only [seqUpdate, h1, h2, if_false]
+      rcases hop with rfl | rfl <;>
+        simp [List.replicate, run, step, hterm, Local.start, Local.next, Local.feedLock, Local.feedLoad,
+          Local.feedUnit, upd_same, hq1, hq2, hb, h1, h2, Quiescent, cellOf]
+
+
+/-- `snapshot` run alone - from ANY reachable state: other threads may be anywhere, a writer may
+hold the lock half way through its stores, the mutex may be poisoned - performs four loads,
+changes nothing shared, and returns the cell's abstract value (`seqSnapshot`, whose assertion
+cannot fire). -/
+theorem snapshot_refines {chk : Nat → Nat → Bool} {s : State} (hI : Inv chk s) (t : Nat)
+    (hterm : (s.thr t).pc.terminal = true) (cur : Nat × Nat) (hcur : cellOf s = some cur) :
+    seqSnapshot chk cur = some cur ∧
+    ∃ s', run chk s (.start t .snapshot :: List.replicate 4 (.run t 0)) = some s' ∧
+      (s'.thr t).pc = .retSnap ∧ ((s'.thr t).base, (s'.thr t).bits) = cur ∧
+      s'.mem = s.mem ∧ s'.held = s.held ∧ s'.poisoned = s.poisoned ∧ s'.hist = s.hist := by
+  obtain ⟨hb, hv⟩ := cell_mem hI hcur
+  have hc : chk cur.1 cur.2 = true := hI.chkAll cur (List.mem_of_getLast? hcur)
+  refine ⟨by simp [seqSnapshot, hc], ?_⟩
+  simp [List.replicate, run, step, hterm, Local.start, Local.next, Local.feedLoad, upd_same, hb, hv, hc]
+
+
+set_option linter.unusedSimpArgs false in
+/-- Where `update` and `try_update` differ when run alone: on a poisoned (free) mutex.  `update`
+clears the poison (three extra steps: the poisoned `lock()`, `clear_poison`, dropping the
+guard inside the error) and then behaves as on a clean mutex ... -/
+theorem update_recovers_from_poison {chk : Nat → Nat → Bool} {s : State} (hI : Inv chk s)
+    (hheld : s.held = none) (hpois : s.poisoned = true) (t : Nat)
+    (hterm : (s.thr t).pc.terminal = true) (cur : Nat × Nat) (hcur : cellOf s = some cur) (b v : Nat) :
+    match seqUpdate chk cur b v with
+    | some (cur', r) =>
+      ∃ s', run chk s (.start t (.update b v) :: List.replicate (if r then 11 else 8) (.run t 0)) = some s' ∧
+        (s'.thr t).pc = .retBool r ∧ Quiescent s' ∧ cellOf s' = some cur' ∧
+        s'.hist = (if r then s.hist ++ [(b, v)] else s.hist)
+    | none =>
+      ∃ s', run chk s (.start t (.update b v) :: List.replicate 8 (.run t 0)) = some s' ∧
+        (s'.thr t).pc = .aPanic ∧ s'.held = none ∧ s'.poisoned = true ∧ s'.hist = s.hist := by
+  obtain ⟨hb, hv⟩ := cell_mem hI hcur
+  unfold cellOf at *
+  by_cases h1 : b < cur.1
+  · simp only [seqUpdate, h1, if_true]
+    simp [List.replicate, run, step, hterm, Local.start, Local.next, Local.feedLock, Local.feedLoad,
+        Local.feedUnit, upd_same, hheld, hpois, hb, h1, Quiescent, cellOf, hcur]
+  · by_cases h2 : chk b v = true
+    · simp only [seqUpdate, h1, h2, if_false, Bool.not_true]
+      simp [List.replicate, run, step, hterm, Local.start, Local.next, Local.feedLock, Local.feedLoad,
+          Local.feedUnit, upd_same, hheld, hpois, hb, h1, h2, Quiescent, cellOf]
+    · simp only [seqUpdate, h1, h2, if_false]
+      simp [List.replicate, run, step, hterm, Local.start, Local.next, Local.feedLock, Local.feedLoad,
+          Local.feedUnit, upd_same, hheld, hpois, hb, h1, h2, Quiescent, cellOf]
+
+/-- ... whereas `try_update` on a poisoned mutex clears the poison and returns `false` without
+looking at its argument (three steps), whatever `seqUpdate` says.  (A mutex is poisoned only by
+a panic inside `advance_once`, i.e. by an `update`/`try_update` with an invalid pair.) -/
+theorem try_update_poisoned_returns_false (chk : Nat → Nat → Bool) (s : State)
+    (hheld : s.held = none) (hpois : s.poisoned = true) (t : Nat)
+    (hterm : (s.thr t).pc.terminal = true) (b v : Nat) :
+    ∃ s', run chk s (.start t (.tryUpdate b v) :: List.replicate 3 (.run t 0)) = some s' ∧
+      (s'.thr t).pc = .retBool false ∧ Quiescent s' ∧ s'.hist = s.hist ∧ s'.mem = s.mem := by
+  simp [List.replicate, run, step, hterm, Local.start, Local.next, Local.feedLock, Local.feedUnit, upd_same,
+    hheld, hpois, Quiescent]
+
+end Woodpile.Abt.SC
+
+/-! ### Synchronises-with at the level of calls -/
+namespace Woodpile.Abt
+namespace Mach
+
+/-- Completed calls are never forgotten. -/
+theorem done_mono_step (M : Mach) (g g' : M.GState) (l : Label) (h : M.gstep g l = some g') :
+    ∀ R ∈ g.done, R ∈ g'.done := by
+  simp only [gstep] at h
+  cases hst : M.step g.s l with
+  | none => simp [hst] at h
+  | some s1 =>
+    simp only [hst] at h
+    cases h
+    intro R hR
+    cases l <;> simp only [gnext]
+    · split
+      · exact List.mem_cons_of_mem _ hR
+      · exact hR
+    · exact hR
+    · exact hR
+
+theorem done_mono (M : Mach) (ls : List Label) : ∀ (g g' : M.GState), M.grun g ls = some g' →
+    ∀ R ∈ g.done, R ∈ g'.done := by
+  induction ls with
+  | nil => intro g g' h; simp [grun] at h; subst h; exact fun _ h => h
+  | cons l ls ih =>
+    intro g g' h R hR
+    simp only [grun] at h
+    cases hst : M.gstep g l with
+    | none => simp [hst] at h
+    | some g1 =>
+      simp only [hst] at h
+      exact ih g1 g' h R (done_mono_step M g g1 l hst R hR)
+
+/-- "From step `c` on, thread `t`'s view of `sequence` is at least `n`": then so is the recorded
+start view of every call of `t` that starts at or after step `c`. -/
+structure After (M : Mach) (ok : M.σ → Prop) (t n c : Nat) (g : M.GState) : Prop where
+  ok : ok g.s
+  view : n ≤ M.vseq g.s t
+  clock : c ≤ g.clock
+  recs : ∀ S ∈ g.done, S.tid = t → c ≤ S.tStart → n ≤ S.vStart
+  cur : ∀ op t0, g.cur t = some (op, t0) → c ≤ t0 → n ≤ M.startOf g.s t
+
+theorem after_step {M : Mach} {chk : Nat → Nat → Bool} {ok : M.σ → Prop} {G : Prop} (L : Laws M chk ok G)
+    {t n c : Nat} {g : M.GState} {l : Label} {s' : M.σ} (hA : After M ok t n c g) (hs : M.step g.s l = some s') :
+    After M ok t n c (M.gnext g l s') := by
+  have hv : n ≤ M.vseq s' t := Nat.le_trans hA.view (L.vmono hA.ok hs t)
+  have hoth := L.others hA.ok hs
+  cases l with
+  | sync t1 u =>
+    refine ⟨L.ok_step hA.ok hs, hv, by show c ≤ g.clock + 1; have := hA.clock; omega, hA.recs, ?_⟩
+    intro op t0 h1 h2
+    show n ≤ M.startOf s' t
+    have : M.startOf s' t = M.startOf g.s t := by
+      by_cases ht : t = t1
+      · subst ht; exact (L.sync hA.ok hs).2.1
+      · exact (hoth t ht).2
+    rw [this]; exact hA.cur op t0 h1 h2
+  | start t1 op1 =>
+    refine ⟨L.ok_step hA.ok hs, hv, by show c ≤ g.clock + 1; have := hA.clock; omega, hA.recs, ?_⟩
+    intro op t0 h1 h2
+    show n ≤ M.startOf s' t
+    by_cases ht : t = t1
+    · subst ht
+      rw [(L.start hA.ok hs).2.1]; exact hA.view
+    · have h1 : g.cur t = some (op, t0) := by
+        have : (upd g.cur t1 (some (op1, g.clock))) t = some (op, t0) := h1
+        rwa [upd_ne _ _ _ ht] at this
+      rw [(hoth t ht).2]; exact hA.cur op t0 h1 h2
+  | run t1 ts =>
+    have hst : ∀ op t0, g.cur t = some (op, t0) → c ≤ t0 → n ≤ M.startOf s' t := by
+      intro op t0 h1 h2
+      have : M.startOf s' t = M.startOf g.s t := by
+        by_cases ht : t = t1
+        · subst ht; exact (L.run hA.ok hs).2
+        · exact (hoth t ht).2
+      rw [this]; exact hA.cur op t0 h1 h2
+    simp only [gnext]
+    split
+    · rename_i op t0 r hc hr
+      refine ⟨L.ok_step hA.ok hs, hv, by show c ≤ g.clock + 1; have := hA.clock; omega, ?_, ?_⟩
+      · intro S hS h1 h2
+        rcases List.mem_cons.mp hS with rfl | hm
+        · have h1 : t1 = t := h1
+          subst h1
+          exact hst op t0 hc h2
+        · exact hA.recs S hm h1 h2
+      · intro op' t0' h1 h2
+        by_cases ht : t = t1
+        · subst ht
+          have : (upd g.cur t none) t = some (op', t0') := h1
+          rw [upd_same] at this; cases this
+        · have : (upd g.cur t1 none) t = some (op', t0') := h1
+          rw [upd_ne _ _ _ ht] at this
+          exact hst op' t0' this h2
+    · exact ⟨L.ok_step hA.ok hs, hv, by show c ≤ g.clock + 1; have := hA.clock; omega, hA.recs, hst⟩
+
+theorem after_run {M : Mach} {chk : Nat → Nat → Bool} {ok : M.σ → Prop} {G : Prop} (L : Laws M chk ok G)
+    {t n c : Nat} (ls : List Label) : ∀ (g g' : M.GState), After M ok t n c g → M.grun g ls = some g' →
+    After M ok t n c g' := by
+  induction ls with
+  | nil => intro g g' hA h; simp [grun] at h; subst h; exact hA
+  | cons l ls ih =>
+    intro g g' hA h
+    simp only [grun, gstep] at h
+    cases hst : M.step g.s l with
+    | none => simp [hst] at h
+    | some s1 => simp only [hst] at h; exact ih _ g' (after_step L hA hst) h
+
+/-- Synchronises-with: after a `sync t u` step, every call of `t` that starts later has a start
+view that includes the return view of every call `u` had completed before the `sync`. -/
+theorem sync_order {M : Mach} {chk : Nat → Nat → Bool} {ok : M.σ → Prop} {G : Prop} (L : Laws M chk ok G)
+    {g0 g1 g2 : M.GState} (hI : GInv M chk ok G g0) (U : CallRec) (hU : U ∈ g0.done) (t : Nat)
+    (hsync : M.gstep g0 (.sync t U.tid) = some g1) (ls : List Label) (hrun : M.grun g1 ls = some g2)
+    (S : CallRec) (hS : S ∈ g2.done) (hSt : S.tid = t) (hlater : g0.clock < S.tStart) : U.vRet ≤ S.vStart := by
+  simp only [gstep] at hsync
+  cases hst : M.step g0.s (.sync t U.tid) with
+  | none => simp [hst] at hsync
+  | some s1 =>
+    simp only [hst] at hsync
+    cases hsync
+    have hA : After M ok t U.vRet (g0.clock + 1) (M.gnext g0 (.sync t U.tid) s1) := by
+      refine ⟨L.ok_step hI.ok hst, ?_, Nat.le_refl _, ?_, ?_⟩
+      · exact Nat.le_trans ((hI.recs U hU).2.2 U.tid (Or.inl rfl)) (L.sync hI.ok hst).2.2
+      · intro S' hS' _ h2
+        have a := (hI.recs S' hS').1.2.1
+        have b := (hI.recs S' hS').2.1
+        omega
+      · intro op t0 h1 h2
+        have h1 : g0.cur t = some (op, t0) := h1
+        have := hI.cur t
+        rw [h1] at this
+        have := this.2.2.1
+        omega
+    exact (after_run L ls _ g2 hA hrun).recs S hS hSt (by omega)
+
+theorem grun_append (M : Mach) (l1 l2 : List Label) : ∀ (g : M.GState),
+    M.grun g (l1 ++ l2) = (match M.grun g l1 with | some g1 => M.grun g1 l2 | none => none) := by
+  induction l1 with
+  | nil => intro g; simp [grun]
+  | cons l ls ih =>
+    intro g
+    simp only [List.cons_append, grun]
+    cases M.gstep g l with
+    | none => rfl
+    | some g1 => exact ih g1
+
+end Mach
+end Woodpile.Abt
